@@ -98,6 +98,10 @@ func leafString(cfg *config.Config, l cfgLeaf) string {
 func setLeaf(cfg *config.Config, l cfgLeaf, class string, def string) string {
 	v := leafValue(cfg, l)
 	n := map[string]int{"F": 1, "L": 2, "F2": 3}[class]
+	if class == "Z" { // the zero value of the option's type
+		v.Set(reflect.Zero(v.Type()))
+		return leafString(cfg, l)
+	}
 	switch l.kind {
 	case "string":
 		s := []string{"", "file-value-that-is-rather-long-to-change-the-file-length", "flagval", "f2"}[n]
@@ -240,6 +244,31 @@ func RunConfig(c *Ctx) error {
 		}
 	}
 	c.Tr.Emit("CfgRoundTrip", world.F{"ok": rtOK, "diff": diff})
+	// ... and of configurations in which one option at a time holds the zero value of its type (0, "", false, 0s),
+	// which differs from the default for most options: what was written must still be what is read
+	for _, l := range leaves {
+		removeFile()
+		one := config.DefaultConfig
+		if one.Instrumentation != nil {
+			cp := *one.Instrumentation
+			one.Instrumentation = &cp
+		}
+		d := config.DefaultConfig
+		setLeaf(&one, l, "Z", leafString(&d, l))
+		ok := writeFile(one) == nil
+		diff := ""
+		if ok {
+			back, err := load(nil)
+			ok = err == nil
+			for _, l2 := range leaves {
+				if ok && leafString(&back, l2) != leafString(&one, l2) {
+					ok, diff = false, l2.path
+				}
+			}
+		}
+		c.Tr.Emit("CfgRoundTrip", world.F{"ok": ok, "diff": diff + " (zero value of " + l.path + ")"})
+	}
+	removeFile()
 	// genesis
 	g := genesis.NewGenesis("chain-x", 7, time.Unix(1700000000, 0).UTC(), []byte{1, 2, 3, 4})
 	gp := home + "/genesis.json"
